@@ -64,6 +64,9 @@ type c16Scenario struct {
 	CloseWhileBlocked bool              `json:"close_while_blocked"` // end the connection while background handlers are still blocked
 	PanicDuringClose  bool              `json:"panic_during_close"`  // a handler panics while Close() is waiting for the event loop
 	CustomRecover     bool              `json:"custom_recover"`
+	// SwapAfterConnect (with CustomRecover): another Recover function is configured up front and the real
+	// one is installed through Config() only once the client is connected
+	SwapAfterConnect bool `json:"swap_after_connect"`
 	Handlers          map[string][]c16H `json:"handlers"` // verb -> handlers
 	Events            []string          `json:"events"`   // verb, or "!<builtin probe line>"
 }
@@ -90,6 +93,28 @@ func genC16(t *rapid.T) *c16Scenario {
 			}
 			sc.Handlers[v] = append(sc.Handlers[v], h)
 		}
+	}
+	sc.SwapAfterConnect = sc.CustomRecover && rapid.Bool().Draw(t, "swap_after_connect")
+	switch rapid.IntRange(0, 39).Draw(t, "special") {
+	case 7:
+		// more than four thousand events, each leaving one background invocation stuck
+		sc.Handlers = map[string][]c16H{"EVX": {{Scripts: []string{"ok"}}, {BG: true, Scripts: []string{"block"}}}, "EVY": {{Scripts: []string{"ok"}}}, "PRIVMSG": {{Scripts: []string{"ok"}}}}
+		for i, n := 0, rapid.IntRange(4100, 4400).Draw(t, "nevents_huge"); i < n; i++ {
+			sc.Events = append(sc.Events, "EVX")
+		}
+		sc.Events = append(sc.Events, "EVY", "PRIVMSG")
+		return sc
+	case 8, 9:
+		// a crowd of handlers on one event, one of the first panicking
+		var hs []c16H
+		for i, n := 0, rapid.SampledFrom([]int{129, 130, 200, 300}).Draw(t, "crowd"); i < n; i++ {
+			h := c16H{Scripts: []string{"ok"}}
+			if i == rapid.IntRange(0, 9).Draw(t, "crowd_panicker") {
+				h.Scripts = []string{"panic:string"}
+			}
+			hs = append(hs, h)
+		}
+		sc.Handlers["EVX"] = hs
 	}
 	n := rapid.IntRange(5, 60).Draw(t, "nevents")
 	if rapid.IntRange(0, 11).Draw(t, "long_history") == 0 {
@@ -152,6 +177,11 @@ func runC16(sc *c16Scenario) *Violation {
 	}})
 	if sc.CustomRecover && sc.PanicDuringClose {
 		tc.C.Config().Recover = lateRecover // ... the others through Config() on the existing client
+	}
+	if sc.SwapAfterConnect {
+		// until the client is connected some other function is configured; panics handed to it are lost
+		// to this scenario's count
+		tc.C.Config().Recover = func(c *client.Conn, l *client.Line) { recover() }
 	}
 	release := make(chan struct{})
 	released := false
@@ -217,6 +247,9 @@ func runC16(sc *c16Scenario) *Violation {
 	tc.C.HandleFunc(client.DISCONNECTED, func(*client.Conn, *client.Line) { discCh <- struct{}{} })
 	if err := tc.connect(); err != nil {
 		return violationf("C16", "connect: %v", err)
+	}
+	if sc.SwapAfterConnect {
+		tc.C.Config().Recover = lateRecover // "Config returns a pointer to the Config struct": it may be changed on the live client
 	}
 	// expectations
 	wantProbe := map[string]int{}
